@@ -356,7 +356,9 @@ def ob_reject():
 
 @obligation("native/nearest_neighbour_cross_check", kind="bounded", timeout=900,
             desc="native: random samples incl. points 1e-9 from decision boundaries, all modulators/orders up to 1024, histories "
-                 "demodulate -> setPhaseOffset -> demodulate: demodulate == brute-force nearest point (ties excluded)")
+                 "demodulate -> setPhaseOffset -> demodulate: demodulate == brute-force nearest point (ties excluded); long frames (frame "
+                 "length x M up to 2^22 quick / 2^23 thorough, lengths that are no multiple of a power of two): demodulate(modulate(idx)) == idx "
+                 "noise-free and with small noise")
 def ob_native():
     from pyphysim.modulators import fundamental as f
     r = stable_rng("C01native")
@@ -364,8 +366,35 @@ def ob_native():
     def gen():
         for i in range(80 if quick() else 800):
             yield {"seed": int(r.randint(1 << 30)), "which": i % 6}
+        # long frames: lengths around and beyond every "samples x constellation size" product up to 2^23 elements, not multiples of
+        # any power of two (a block-wise implementation must not drop or garble a trailing partial block)
+        for M, kind in ((2, "BPSK"), (4, "QPSK"), (8, "PSK"), (16, "QAM"), (64, "QAM"), (256, "QAM"), (1024, "QAM"), (4096, "QAM")):
+            for prod in ((1 << 16, 1 << 20, 1 << 22) if quick() else (1 << 16, 1 << 18, 1 << 20, 1 << 21, 1 << 22, 1 << 23)):
+                n = prod // M
+                if n >= 16:
+                    yield {"seed": int(r.randint(1 << 30)), "long": [M, kind, n + 5]}
+                    if not quick():
+                        yield {"seed": int(r.randint(1 << 30)), "long": [M, kind, 3 * n + 1]}
+
+    def check_long(case):
+        rr = np.random.RandomState(case["seed"])
+        M, kind, n = case["long"]
+        o = {"BPSK": f.BPSK, "QPSK": f.QPSK}[kind]() if kind in ("BPSK", "QPSK") else (f.PSK(M, 0.3) if kind == "PSK" else f.QAM(M))
+        idx = rr.randint(0, M, size=n)
+        idx[-7:] = (np.arange(7) * 5 + 1) % M          # a known non-zero tail
+        sym_ = o.modulate(idx)
+        noisy = sym_ + (rr.randn(n) + 1j * rr.randn(n)) * (0.2 / math.sqrt(M))      # well inside the decision regions
+        for label, rx in (("noise-free", sym_), ("small noise", noisy)):
+            got = o.demodulate(rx)
+            if got.shape != idx.shape or not np.array_equal(got, idx):
+                bad = np.flatnonzero(np.asarray(got).ravel()[:n] != idx[:np.asarray(got).size]) if np.asarray(got).size else np.array([0])
+                return {"modulator": type(o).__name__, "M": M, "frame length": n, "input": label, "wrong symbols": int(bad.size),
+                        "first wrong position": int(bad[0]) if bad.size else None, "last wrong position": int(bad[-1]) if bad.size else None}
+        return None
 
     def check(case):
+        if "long" in case:
+            return check_long(case)
         rr = np.random.RandomState(case["seed"])
         w = case["which"]
         if w == 0:
